@@ -57,6 +57,7 @@ class Ctx:
         self.counting = True
         self.max_samples = 4
         self.survey = {}
+        self.sets = {}   # name -> set, merged over workers by union (e.g. LR productions reduced)
 
     def sut(self, cfg=None, **kw):
         cfg = cfg or self.prop.configs[0]
@@ -142,6 +143,9 @@ class Property:
         """initial corpus files (bytes) for the property's fuzz target"""
         return ()
 
+    def worker_end(self, ctx):
+        """optional per-worker step after generation (e.g. collect hook statistics into ctx.sets)"""
+
     def post(self, ctx):
         """optional whole-run step after generation in worker 0 (returns list of (case, failure))"""
         return []
@@ -186,6 +190,10 @@ def _worker(args):
         # 2. generated cases
         if nexamples > 0 and not ctx.violations:
             _run_hypothesis(prop, ctx, nexamples, _hyp_seed(seed, pid, widx))
+        try:
+            prop.worker_end(ctx)
+        except Exception:
+            pass
         if widx == 0 and not ctx.violations:
             for case, f in prop.post(ctx):
                 ctx.violations.append((case, f))
@@ -197,7 +205,8 @@ def _worker(args):
         ctx.close()
     res.update(evaluations=ctx.evaluations, nontrivial=list(ctx.nontrivial), samples=ctx.samples,
                counters=dict(ctx.counters), known=dict(ctx.known),
-               violations=[(c, f.to_json()) for c, f in ctx.violations], wall=time.time() - t0, survey=ctx.survey)
+               violations=[(c, f.to_json()) for c, f in ctx.violations], wall=time.time() - t0, survey=ctx.survey,
+               sets={k: sorted(v) for k, v in ctx.sets.items()})
     return res
 
 
@@ -324,6 +333,8 @@ def run_check(pid, tier, seed, replay=None):
                 merged['counters'][ck] += cv
         merged['known'].update(r['known'])
         merged['violations'].extend(r['violations'])
+        for sk, sv in r.get('sets', {}).items():
+            merged.setdefault('sets', {}).setdefault(sk, set()).update(sv)
         if r['inconclusive']:
             merged['inconclusive'].append(r['inconclusive'])
         if r['error']:
